@@ -167,6 +167,10 @@ def tlc(module, cfg, workers=8, timeout=1800, simulate=None, seed=None, env=None
     s = _STATS.findall(txt)
     if s:
         m['transitions'], m['states'] = int(s[-1][0]), int(s[-1][1])
+    if simulate:
+        g = re.findall(r'The number of states generated: (\d+)', txt)
+        if g:
+            m['transitions'] = m['states'] = int(g[-1])
     d = _DEPTH.findall(txt)
     if d:
         m['depth'] = int(d[-1])
